@@ -82,7 +82,8 @@ func CopyHeaders(proxyReq, originalReq *http.Request) {
 
 	// SHERPA-44: Ensure X-Real-IP header is set
 	// Add real IP tracking headers
-	if realIP := originalReq.Header.Get(constants.HeaderXRealIP); realIP == "" {
+	// only when the client supplied no value on any X-Real-IP line: Set would drop them all
+	if !hasHeaderValue(originalReq.Header, constants.HeaderXRealIP) {
 		if ip := extractClientIP(originalReq); ip != "" {
 			proxyReq.Header.Set(constants.HeaderXRealIP, ip)
 		}
@@ -108,7 +109,7 @@ func updateForwardedHeaders(proxyReq, originalReq *http.Request) {
 	}
 
 	// X-Forwarded-Proto
-	if proto := originalReq.Header.Get(constants.HeaderXForwardedProto); proto == "" {
+	if !hasHeaderValue(originalReq.Header, constants.HeaderXForwardedProto) {
 		if originalReq.TLS != nil {
 			proxyReq.Header.Set(constants.HeaderXForwardedProto, constants.ProtocolHTTPS)
 		} else {
@@ -117,9 +118,20 @@ func updateForwardedHeaders(proxyReq, originalReq *http.Request) {
 	}
 
 	// X-Forwarded-Host
-	if host := originalReq.Header.Get(constants.HeaderXForwardedHost); host == "" && originalReq.Host != "" {
+	if !hasHeaderValue(originalReq.Header, constants.HeaderXForwardedHost) && originalReq.Host != "" {
 		proxyReq.Header.Set(constants.HeaderXForwardedHost, originalReq.Host)
 	}
+}
+
+// hasHeaderValue reports whether any line of the header carries a value. Header.Get only looks at
+// the first line, which may be empty while a later one is not
+func hasHeaderValue(h http.Header, name string) bool {
+	for _, v := range h.Values(name) {
+		if strings.TrimSpace(v) != "" {
+			return true
+		}
+	}
+	return false
 }
 
 var hopByHopHeaders = []string{
